@@ -697,13 +697,10 @@ func (channel *Channel) handleAck(method *amqp.BasicAck) *amqp.Error {
 
 func (channel *Channel) ackMsg(unackedMessage *UnackedMessage, deliveryTag uint64) {
 	delete(channel.ackStore, deliveryTag)
-	q := channel.conn.GetVirtualHost().GetQueue(unackedMessage.queue)
-	if q != unackedMessage.origin {
-		q = nil
-	}
-	if q != nil {
-		q.AckMsg(unackedMessage.msg)
-
+	// the queue the delivery came from settles it, or reports that it has been deleted; no lookup in the queue table
+	// here: this runs under ackLock, which a consumer in the middle of a delivery waits for while a queue.delete that
+	// holds the table lock waits for that consumer
+	if q := unackedMessage.origin; q != nil && q.AckMsg(unackedMessage.msg) {
 		channel.metrics.Acknowledge.Counter.Inc(1)
 		channel.metrics.Unacked.Counter.Dec(1)
 	} else {
@@ -764,17 +761,16 @@ func (channel *Channel) handleReject(deliveryTag uint64, multiple bool, requeue 
 
 func (channel *Channel) rejectMsg(unackedMessage *UnackedMessage, deliveryTag uint64, requeue bool) {
 	delete(channel.ackStore, deliveryTag)
-	qu := channel.conn.GetVirtualHost().GetQueue(unackedMessage.queue)
-	if qu != unackedMessage.origin {
-		qu = nil
-	}
-
-	if qu != nil {
+	// as in ackMsg: the origin queue does it or reports that it is gone; no queue table lock under ackLock
+	done := false
+	if qu := unackedMessage.origin; qu != nil {
 		if requeue {
-			qu.Requeue(unackedMessage.msg)
+			done = qu.Requeue(unackedMessage.msg)
 		} else {
-			qu.AckMsg(unackedMessage.msg)
+			done = qu.AckMsg(unackedMessage.msg)
 		}
+	}
+	if done {
 		channel.metrics.Unacked.Counter.Dec(1)
 	} else {
 		// TODO When a queue is deleted any pending messages are sent to a dead­letter
